@@ -107,9 +107,21 @@ fn build(rng: &mut Rng) -> Plan {
     if const_name.is_some() {
         features.push("definitions_with_equal_values_on_ancestor_and_descendant");
     }
+    let null_name: Option<&str> = if const_name.is_none() && !inherited.is_empty() && rng.chance(1, 6) { Some(*rng.pick(&inherited)) } else { None };
+    if null_name.is_some() {
+        features.push("null_valued_definition_below_an_inherited_one");
+    }
     for (k, n) in &defs {
         let (_, q, cap) = KINDS[*k];
-        let value = if const_name == Some(*n) { GExpr::str("same value everywhere") } else { node_value(cap, n) };
+        // a definition may also be `#null`: it is a definition all the same and masks what the
+        // node would inherit
+        let value = if const_name == Some(*n) {
+            GExpr::str("same value everywhere")
+        } else if *k != 0 && null_name == Some(*n) {
+            GExpr::Null
+        } else {
+            node_value(cap, n)
+        };
         let mut stmts = if use_var {
             vec![stmt(StmtKind::Var(GVar::s(GExpr::cap(cap), n), value))]
         } else {
@@ -239,6 +251,11 @@ fn build(rng: &mut Rng) -> Plan {
                         });
                     } else {
                         attrs.push(GAttr { name: format!("list_{}", cap), value: Some(GExpr::cap(cap)) });
+                    }
+                    if rng.chance(1, 12) {
+                        // a list is not a scope, however many elements it happens to have
+                        attrs.push(GAttr { name: format!("bad_scope_{}", cap), value: Some(GExpr::scoped(GExpr::cap(cap), *rng.pick(NAMES))) });
+                        features.push("list_capture_used_as_scope");
                     }
                 }
             }
